@@ -269,7 +269,8 @@ Definition rt_un (o : unop) (t : ity) (a : Z) : rres :=
    (or passed as an argument).  When the result is consumed directly by another operator, what
    counts is the C type and value of the emitted expression: operator_binary_op emits
    `(T)(l op r)` for two run-time operands of different signedness and (since 1d3f0fa) whenever
-   the result type T is narrower than C int; helpers return T; otherwise the bare C expression,
+   the result type T is narrower than C int; mixed `///` `%%%` are `(T)((T)l / (T)r)` (8eb30df);
+   helpers return T; otherwise the bare C expression,
    whose C type is the usual arithmetic conversion of the operand C types.  rt_bin_c gives the C
    type and value for operands of Nelua types lt rt, C types cl cr, values a b. *)
 Definition plain_c (o : binop) (cl cr : ity) (a b : Z) : option Z :=
@@ -297,9 +298,9 @@ Definition rt_bin_c (o : binop) (lt rt cl cr : ity) (a b : Z) : option (ity * Z)
     of_stored (rt_bin o lt rt a b)
   else if is_cmpop o then omap (fun v => (I32, v)) (plain_c o cl cr a b)
   else if mixed lt rt && (match o with Btdiv | Btmod => true | _ => false end) then
-    (* ((T)l / (T)r): computed in the promoted type of T, NOT cast back *)
-    omap (fun v => (c_arith_type t t, v))
-         (obind (c_conv Gnu t a) (fun a' => obind (c_conv Gnu t b) (plain_c o t t a')))
+    (* (T)((T)l / (T)r): done in the result type and (since 8eb30df) cast back to it *)
+    omap (fun v => (t, v))
+         (obind (obind (c_conv Gnu t a) (fun a' => obind (c_conv Gnu t b) (plain_c o t t a'))) (c_conv Gnu t))
   else if mixed lt rt || (bits t <? 32) then
     omap (fun v => (t, v)) (obind (plain_c o cl cr a b) (c_conv Gnu t))   (* (T)(l op r) *)
   else omap (fun v => (c_arith_type cl cr, v)) (plain_c o cl cr a b).
